@@ -19,6 +19,10 @@ def scripts(rng, tier, n=None):
     for k in range(n):
         ssrc = rng.randrange(2, 1 << 32)
         p, _ = strat_policy(rng, k, ssrc=ssrc, valid=True)
+        if k % 8 == 5:
+            # MKI switched off but an MKI size and MKI values left in the policy: the library refuses it (were it accepted, srtp_protect
+            # would append mki_size octets that the trailer-length query and this generator do not count)
+            p.keys = [(k_, bytes([9, 9, 9, i])) for i, (k_, _) in enumerate(p.keys)]; p.use_mki = False; p.mki_size = 4; p.use_key_field = False
         L = [p.line(1), "create 1 1", "create 2 1"]
         # multi-stream session for the "never more than reported" part
         q = rand_policy(rng, ssrc=ssrc ^ 9, valid=True, mki=p.use_mki)
